@@ -550,4 +550,32 @@ theorem sum_tab_sumIf (nr nc : Nat) (ts : List Trip) :
   rw [sum_range_ite_lt]
   by_cases h3 : x.row < nr <;> by_cases h4 : x.col < nc <;> simp [h3, h4]
 
+theorem binIdx_isSome_iff (e : List Rat) (he : e.Pairwise (· ≤ ·)) (f : Freq) :
+    (binIdx e f).isSome = inRange e f := by
+  have h := inRange_iff e he f
+  have : (binIdx e f).isSome = true ↔ inRange e f = true := by
+    rw [h]
+    unfold binIdx
+    simp only []
+    split <;> simp <;> omega
+  cases h1 : (binIdx e f).isSome <;> cases h2 : inRange e f <;> simp_all
+
+theorem length_cooFrom {ρ : Type} (mk : Nat → ρ → List Trip) (n : ρ → Nat) (h : ∀ t r, (mk t r).length = n r) :
+    ∀ (t0 : Nat) (rows : List ρ), (cooFrom mk t0 rows).length = (rows.map n).sum := by
+  intro t0 rows
+  induction rows generalizing t0 with
+  | nil => rfl
+  | cons r rs ih => simp [cooFrom, ih, h]
+
+theorem length_hhtRowTrips (e : List Rat) (he : e.Pairwise (· ≤ ·)) (energy : Bool) (t : Nat) (r : HRow) :
+    (hhtRowTrips e energy t r).length = (List.zip r.1 r.2).countP fun fa => inRange e fa.1 := by
+  unfold hhtRowTrips hhtRowTripsWith
+  induction List.zip r.1 r.2 with
+  | nil => rfl
+  | cons fa rest ih =>
+    rw [List.filterMap_cons, List.countP_cons, ← binIdx_isSome_iff e he fa.1]
+    cases hb : binIdx e fa.1 with
+    | none => simp [ih]
+    | some b => simp [ih]
+
 end Spectra
